@@ -266,10 +266,11 @@ claim("C09", "proof",
       "the perturbed run are equal (lock-step simulation); multi_step_taint = reachability; the sink set covers every observed read; a claimed "
       "variable reaches no sink; `unread` means no statement reads it. Tie per run: facts, taint map, constraint map and CS0006/7/8 claims "
       "of the real passes = model on the same CFG, facts well formed (L2); read/written sets of every statement = an independent derivation "
-      "from the IR tree, and every real claim is perturbed in a reference interpreter under random valuations (L1). The machine counts a constraint as an effect when one of its variables is in a set `mention` (any variables that an input/output signal flows into: those whose symbolic value mentions such a signal); with the sink rule before fix 3d6521e the cover lemma is false for a constraint on a single name (defect found by an audit). The oracle tracks the signals a local's symbolic value is built from.",
+      "from the IR tree, and every real claim is perturbed in a reference interpreter under random valuations (L1). The machine counts a constraint as an effect when one of its variables is in a set `mention` (any variables that an input/output signal flows into: those whose symbolic value mentions such a signal); with the sink rule before fix 3d6521e the cover lemma is false for a constraint on a single name (defect found by an audit). The oracle tracks the signals a local's symbolic value is built from. The closures the real passes return are compared with reachability in the real single-step maps.",
       "Lean kernel + standard axioms; the semantic functions of the machine's instructions depend only on the declared reads — that the real "
-      "read/written sets are complete is checked per statement (L1), not proved; the closure theorems are conditional on the loop exiting "
-      "through its subset test (the driver reports an exhausted budget); function calls / component outputs are not executed by the oracle.",
+      "read/written sets are complete is checked per statement (L1), not proved; the closure loops are the work lists of repair 7abcad3, proved to stop within "
+      "(edges + start entries + 1) iterations and to return what the loop before the repair returned; the regions of conditions are recomputed by "
+      "Model/CfgReach.lean from the edges of the CFG and compared with the real ones (CFGs of <= 24 blocks), soundness does not depend on them; function calls / component outputs are not executed by the oracle.",
       "Lean 4 proof (lock-step non-interference for all programs and replacements; closure = reachability; sink coverage) + correspondence + perturbation oracle", "5 (C09)")
 
 claim("C01", "proof",
